@@ -136,15 +136,17 @@ def live_children(w: World, conns):
     return out
 
 
-def one_request(c, w: World, sm, shares, fs, conns, roles, carrier, tag, check_answer=True):
+def one_request(c, w: World, sm, shares, fs, conns, roles, carrier, tag, matches=None, fixed_sender=None):
+    """`matches`: None = the shares have no match (fan-out harness); 'any' = 0..2 visible and 0..2 locked matches"""
     dn = w.dn
     has_session = dn._session is not None
-    asker = tok(c, f'asker{tag}', 0, 2)
+    check_answer = True
+    asker = tok(c, f'asker{tag}', 0, 2 if matches else 1)
     ticket = c.fresh_int(f'ticket{tag}', 0, U32)
     unknown = c.fresh_int(f'unknown{tag}', 0, U32)
     query = qtok(c, f'query{tag}')
-    nv = c.choose(3, f'n_visible{tag}')
-    nl = c.choose(3, f'n_locked{tag}')
+    nv = c.choose(3, f'n_visible{tag}') if matches else 0
+    nl = c.choose(3, f'n_locked{tag}') if matches else 0
     visible = mk_items(c, fs, f'v{tag}_', nv)
     locked = mk_items(c, fs, f'l{tag}_', nl)
     shares.result = (visible, locked)
@@ -159,7 +161,7 @@ def one_request(c, w: World, sm, shares, fs, conns, roles, carrier, tag, check_a
         cands = [i for i, r in enumerate(roles) if r in ('parent', 'child', 'cand') and conns[i].state is ConnectionState.CONNECTED]
         if not cands:
             return False
-        si = c.pick(cands, f'sender{tag}')
+        si = fixed_sender if fixed_sender in cands else c.pick(cands, f'sender{tag}')
         sender = conns[si]
         sender_role = roles[si]
         if carrier == 'distributed':
@@ -177,11 +179,18 @@ def one_request(c, w: World, sm, shares, fs, conns, roles, carrier, tag, check_a
     w.deliver(msg, sender)
     w.settle()
     c.reach('request_' + carrier)
-    own_req = same(asker, w.own)
-    if not isinstance(own_req, bool):
-        own_req = bool(own_req)
+    # "originates from the logged-in user": only defined while somebody is logged in
+    own_req = False
+    if has_session:
+        own_req = same(asker, w.own)
+        if not isinstance(own_req, bool):
+            own_req = bool(own_req)
     sig = [carrier, sender_role, 'own_name' if own_req else 'other_user', 'session' if has_session else 'no_session']
     new = {i: w.frames(conn)[before[i]:] for i, conn in conns.items()}
+    if not c.symbolic:
+        c.note('request', sig, {'asker': asker, 'ticket': ticket, 'query': query, 'matches': [nv, nl],
+                                'frames per peer': {f'{roles[i]}#{i}': [repr(f) for f in fr] for i, fr in new.items()},
+                                'replies': [(to, type(m).__name__, getattr(m, 'ticket', None)) for to, m in w.peer_replies[before_replies:]]})
     # ---- to no other connection
     for i, conn in conns.items():
         if not any(conn is x for x in fanout):
@@ -226,7 +235,7 @@ def one_request(c, w: World, sm, shares, fs, conns, roles, carrier, tag, check_a
                     if len(res) == nv and len(lres) == nl:
                         sizes = [same(x.filesize, fs.sizes[it.get_absolute_path()]) for x, it in zip(res + lres, visible + locked)]
                         c.check(conj(*sizes) if sizes else True, 'reply_carries_those_files', sig=sig)
-    return True
+    return True if carrier == 'server' else si
 
 
 def mk_world(c, session=True):
@@ -243,7 +252,8 @@ def h_fanout(c, roles, carrier, session=True):
     with FileSizes() as fs:
         w, sm, shares = mk_world(c, session)
         conns = build_tree(c, w, roles)
-        if not one_request(c, w, sm, shares, fs, conns, roles, carrier, ''):
+        first = one_request(c, w, sm, shares, fs, conns, roles, carrier, '')
+        if first is False:
             w.cleanup()
             return
         # membership change between the requests
@@ -272,7 +282,17 @@ def h_fanout(c, roles, carrier, session=True):
             roles[i] = 'closing_child'
         if ch != 'none':
             c.reach('membership_changed')
-            one_request(c, w, sm, shares, fs, conns, roles, carrier, '_2', check_answer=False)
+            one_request(c, w, sm, shares, fs, conns, roles, carrier, '_2', fixed_sender=None if first is True else first)
+        w.cleanup()
+
+
+def h_answer(c, carrier, session=True):
+    """the local answer: a request into a small tree (parent, child, candidate) with 0..2 visible and 0..2 locked matches"""
+    roles = ['child', 'parent', 'cand']
+    with FileSizes() as fs:
+        w, sm, shares = mk_world(c, session)
+        conns = build_tree(c, w, roles)
+        one_request(c, w, sm, shares, fs, conns, roles, carrier, '', matches='any')
         w.cleanup()
 
 
@@ -309,7 +329,7 @@ META = {
     'discriminants': ['carrier (3)', 'role of each of 4 peers (absent/candidate/child/parent/closing child/closed child)', 'sender of a distributed carrier',
                       'number of visible / locked matches (0..2 each)', 'membership change between two requests (none/join/leave/closing)', 'session present'],
     'bounds': {'quick': {'peers': 4, 'shapes': 'representative shapes with 0..3 children', 'requests': 2},
-               'thorough': {'peers': 4, 'shapes': 'every role assignment with at most one parent', 'requests': 2}},
+               'thorough': {'peers': 4, 'shapes': 'every multiset of roles with at most one parent, in two list orders', 'requests': 2}},
     'outside': ['which files match (C07) and which are locked (C08): the query result is an input here',
                 'requests received from a child or a candidate: only "nothing reaches a non-child" and the answer clause are checked for them '
                 '(the property speaks about requests from the server or the parent)',
@@ -337,14 +357,34 @@ def jobs(tier):
     if tier == 'quick':
         shapes = QUICK_SHAPES
     else:
-        shapes = [list(t) for t in itertools.product(ROLES, repeat=4) if sum(1 for r in t if r == 'parent') <= 1]
+        # every multiset of roles over 4 peers with at most one parent, in two list orders (the order of the
+        # children / distributed_peers lists is the only thing a permutation changes)
+        shapes = []
+        for t in itertools.combinations_with_replacement(ROLES, 4):
+            if sum(1 for r in t if r == 'parent') <= 1:
+                for o in (list(t), list(reversed(t))):
+                    if o not in shapes:
+                        shapes.append(o)
     for shape in shapes:
         for carrier in CARRIERS:
             req = ['request_' + carrier] if (carrier == 'server' or any(r in ('parent', 'child', 'cand') for r in shape)) else []
             out.append({'harness': 'fanout', 'fn': h_fanout, 'params': {'roles': shape, 'carrier': carrier, 'session': True},
                         'requires': req})
+    for carrier in CARRIERS:
+        out.append({'harness': 'answer', 'fn': h_answer, 'params': {'carrier': carrier, 'session': True},
+                    'requires': ['request_' + carrier, 'answer_expected', 'no_answer_expected']})
     for shape in (QUICK_SHAPES if tier == 'quick' else QUICK_SHAPES):
         for carrier in ('distributed', 'legacy'):
             out.append({'harness': 'fanout', 'fn': h_fanout, 'params': {'roles': shape, 'carrier': carrier, 'session': False},
                         'requires': ['request_' + carrier]})
     return out
+
+
+def prelude(tier):
+    from aioslsk.protocol.messages import DistributedMessage
+    m = DistributedSearchRequest.Request(0x31, 'user2', 2 ** 32 - 1, 'q1')
+    if DistributedMessage.deserialize_request(m.serialize()) != m:
+        raise symex.HarnessError('frame decoding does not round-trip DistributedSearchRequest')
+    if DistributedSearchRequest.Request.MESSAGE_ID != DSR_CODE:
+        raise symex.HarnessError('legacy wrapper code')
+    return ['frame decoder round-trips DistributedSearchRequest', 'legacy wrapper code == DistributedSearchRequest.MESSAGE_ID == 3']
